@@ -161,6 +161,7 @@ func init() {
 					b, ok := ast.Unparen(e).(*ast.BinaryExpr)
 					return ok && b.Op == token.ADD && core.Mentions("param:0")(c, b) && core.Mentions("param:1")(c, b)
 				}
+				sum = core.Resolved(sum)
 				core.RejectWhen{Fn: "account.safeAdd", Name: "sum wraps (sum < amount)", L: sum, R: core.IsObj("param:1"), Rel: token.LSS, Sentinel: "types.ErrAmount"}.Check(r)
 				core.RejectWhen{Fn: "account.safeAdd", Name: "sum > MaxTokenBalance", L: sum, R: core.IsObj("types.MaxTokenBalance"), Rel: token.GTR, Sentinel: "types.ErrAmount"}.Check(r)
 			}),
